@@ -463,7 +463,7 @@ Lemma reopen_current : forall s st mm, HS s ->
   hdrlen (reopen s st mm) = hdrlen s /\ bpow (reopen s st mm) = bpow s /\ fsize (reopen s st mm) = fsize s.
 Proof.
   intros s st mm Hs. apply hs_iff in Hs as Hc. destruct Hs as [E1 E2]. unfold reopen, disk_bm. rewrite Hc.
-  set (s0 := mkFsm _ _ _ _ _ _ _ _ _ _ _ _ _ _ _ _ _ _).
+  set (s0 := mkFsm _ _ _ _ _ _ _ _ _ _ _ _ _ _ _ _ _ _ _).
   assert (B : bm (load_fsm s0) = bm s0 /\ hdrlen (load_fsm s0) = hdrlen s0 /\ bpow (load_fsm s0) = bpow s0 /\
               fsize (load_fsm s0) = fsize s0).
   { unfold load_fsm. generalize (load_runs (bm s0) (bmlen s0)). intros R.
